@@ -15,7 +15,8 @@ from pyexpat import XMLParserType, XML_PARAM_ENTITY_PARSING_ALWAYS
 
 from xmlschema.aliases import IOType
 from xmlschema.exceptions import XMLSchemaTypeError, XMLSchemaValueError, \
-    XMLResourceError, XMLResourceForbidden, XMLResourceOSError
+    XMLResourceError, XMLResourceForbidden, XMLResourceOSError, \
+    XMLResourceParseError
 from xmlschema.utils.streams import DefusableReader
 
 
@@ -80,8 +81,10 @@ def defuse_xml(fp: IOType, rewind: bool = True) -> IOType:
         for event, node in pulldom.parse(fp, parser):
             if event == pulldom.START_ELEMENT:
                 break
-    except SAXParseException:
-        pass  # the purpose is to defuse not to check xml source syntax
+    except SAXParseException as err:
+        # An XML source that cannot be scanned is not defused: another
+        # parser could succeed where expat fails (e.g. other encodings).
+        raise XMLResourceParseError("invalid XML syntax: {}".format(err)) from err
     except OSError as err:
         raise XMLResourceOSError(err)
 
